@@ -484,10 +484,10 @@ def grid_search(model_cls: Type[Model], parameters: Union[ParameterList, Dict[st
     # Calculate best result
     is_min = mode % 2 == 0  # Note: May not work in future if more search modes are added that aren't min-max searches
     index = -1
-    target_score = maxsize if is_min else -maxsize
+    target_score = None  # No best score yet (a +/-maxsize sentinel would beat legitimate scores of that magnitude)
     for i, result in enumerate(results):
         result['score'] = _score_model_for_search(result['records'], mode)
-        if (is_min and result['score'] < target_score) or (not is_min and result['score'] > target_score):
+        if index == -1 or (is_min and result['score'] < target_score) or (not is_min and result['score'] > target_score):
             index, target_score = i, result['score']
 
     return results[index], results  # Return best parameter and summary of all results.
